@@ -322,7 +322,8 @@ def analyze(job):
                 if said_unsat and kcounts["valid"] > 0 and lost < kcounts["valid"]:
                     sig = {"dir": "verdict", "what": "no-solution-reported-but-valid-schedule-admitted", "features": features(program)}
                     seen_sig[json.dumps(sig, sort_keys=True)] = [1, {"program": program, "leaf": [], "solver": solver_kw, "expect": "accept"}, sig]
-                if sol and stats.admitted == 0 and stats.unknown_leaves == 0:
+                if sol and stats.admitted == 0 and stats.unknown_leaves == 0 and program.get("horizon") is not None:
+                    # (without a user horizon the admitted set is not confined to the box)
                     sig = {"dir": "verdict", "what": "solution-returned-but-box-empty", "features": features(program)}
                     seen_sig[json.dumps(sig, sort_keys=True)] = [1, {"program": program, "leaf": [], "solver": solver_kw, "expect": "reject"}, sig]
         if job.get("post") and not capped:
